@@ -140,11 +140,20 @@ func ZZVerifC16Namespaces() {
 	h := s.authMiddleware(http.HandlerFunc(func(w http.ResponseWriter, r *http.Request) { called = true }))
 	var req *http.Request
 	index := ""
-	if rt.IntRange("by", 0, 1) == 0 {
+	by := rt.IntRange("by", 0, 2)
+	if by == 0 || by == 2 {
 		route := idxRoutes[rt.IntRange("route", 0, len(idxRoutes)-1)]
 		path, first := zzPath(route.pattern)
 		index = first
 		req = &http.Request{Method: route.method, URL: &url.URL{Path: path}, Header: http.Header{}}
+		if by == 2 {
+			// the handlers of these routes act on the index named in the path: a body that names an index the
+			// token may use must not widen the check
+			ns = "nsA"
+			ver.policy.Namespaces = []string{ns}
+			req.Body = zzBody{strings.NewReader(`{"index_name":"nsA","k":1}`)}
+			rt.Reach("path-and-body")
+		}
 	} else {
 		index = "idx1"
 		req = &http.Request{Method: "POST", URL: &url.URL{Path: "/vector/actions/search"}, Header: http.Header{},
